@@ -481,7 +481,17 @@ func Render(f File, layout int) (string, Facts) {
 			w.s("\n")
 		}
 	}
-	w.s("public " + u.Kind + " " + u.Name + u.TParams)
+	// what separates the type keyword from the name is layout too: a blank, a tab, a line break, a comment
+	sep := " "
+	switch layout % 11 {
+	case 4:
+		sep = "\t"
+	case 7:
+		sep = "\n        "
+	case 9:
+		sep = " /* type */ "
+	}
+	w.s("public " + u.Kind + sep + u.Name + u.TParams)
 	if u.Ext != "" {
 		rd.ref(u.Ext)
 		w.s(" extends " + u.Ext)
